@@ -453,10 +453,103 @@ def extract_between(files, start_ev, cid):
     return []
 
 
+# --------------------------------------------------------------------------- C07 / C19 (configuration)
+def config_gen(tier, tag):
+    """TLC enumerates the configuration vectors / TOML documents of Config.tla."""
+    d = os.path.join(vlib.WORK, "cfggen")
+    os.makedirs(d, exist_ok=True)
+    cfg = os.path.join(d, f"{tag}.cfg")
+    open(cfg, "w").write("SPECIFICATION Spec\nCONSTANTS\n  Par = TRUE\n  Experimental = FALSE\n  DocMode = \"%s\"\n"
+                         "INVARIANTS DefaultIsValid VerdictExplained\nCHECK_DEADLOCK FALSE\n" % ("all" if tier == "thorough" else "pairs"))
+    v07, d19 = os.path.join(d, f"{tag}_vec07.ndjson"), os.path.join(d, f"{tag}_doc19.ndjson")
+    r = vlib.run_tlc("ConfigGen.tla", cfg, dict(OUT07=v07, OUT19=d19), tag=f"{tag}gen", workers=4, xmx="6g", timeout=3000)
+    tlc_ok(r, "ConfigGen")
+    return v07, d19, r["states"], r["generated"]
+
+
+def collect_simple(verdicts, prop, res, kind, extra=None):
+    import re
+    ok, seen = 0, set()
+    for cid, (v, msgs) in sorted(verdicts.items()):
+        mine = [m for m in msgs if m.startswith(prop + ":")]
+        if v == "pass" or not mine:
+            ok += 1
+            continue
+        key = f"{prop} " + re.sub(r"\d+", "#", mine[0])[:300]
+        if key in seen:
+            continue
+        seen.add(key)
+        res.failures.append(dict(key=key, what=f"{cid}: {mine[0]}", name=cid,
+                                 replay=dict(property=prop, kind=kind, what=mine[:10], id=cid, **(extra or {}))))
+    return ok
+
+
+def check_c07(prop, tier, seed):
+    import shutil
+    res = Result()
+    v07, d19, gstates, gtrans = config_gen(tier, prop)
+    out = os.path.join(vlib.WORK, f"{prop}-{tier}")
+    shutil.rmtree(out, ignore_errors=True)
+    summ = vlib.run_fv(["cfg07", "--vectors", v07, "--tier", tier, "--seed", seed, "--out", out, "--shards", vlib.JVMS], timeout=3000)
+    verdicts, states, trans, _ = vlib.run_trace_shards("TraceConfig.tla", "TraceConfig.cfg", summ["verdict_files"], tagp=prop + "v")
+    if len(verdicts) != summ["vectors"]:
+        raise ToolError(f"{summ['vectors']} vectors but {len(verdicts)} verdicts")
+    ok = collect_simple(verdicts, prop, res, "cfg07", dict(tier=tier, seed=seed))
+    # accepted configurations encode the probe corpus without panicking and losslessly (TLC decodes)
+    pv, pstates, ptrans, _ = vlib.run_trace_shards("TraceStream.tla", "TraceStream.cfg", summ["probe_files"], tagp=prop + "p", timeout=3000)
+    pok = 0
+    for cid, (v, msgs) in sorted(pv.items()):
+        mine = [m for m in msgs if m.startswith(("C01:", "C02:", "ALL:"))]
+        if not mine:
+            pok += 1
+            continue
+        lines = vlib.extract_case(summ["probe_files"], cid)
+        case = json.loads(lines[0]) if lines else {}
+        case.pop("bytes", None)
+        res.failures.append(dict(key=f"{prop} probe " + stream_key(prop, case, mine), what=f"probe {cid} (cfg {case.get('cfg')}): " + "; ".join(mine[:2]),
+                                 name=cid, replay=dict(property=prop, kind="cfg07", tier=tier, seed=seed, id=cid, what=mine), trace_lines=lines))
+    res.coverage = dict(states=gstates + states + pstates, transitions=gtrans + trans + ptrans,
+                        traces_validated_against_impl=ok + pok, evaluations=summ["vectors"] + summ["probe_cases"],
+                        vectors=summ["vectors"], accepted_and_valid=summ["accepted"], probe_streams=summ["probe_cases"],
+                        distinct_nontrivial=summ["classes"] + summ["probe_cases"],
+                        rule="TLC enumerates every configuration with at most two fields at a boundary value (min-1, min, max, max+1, huge; alpha classes "
+                             "incl. NaN/inf) from Config.tla; the library's verdict is judged by TraceConfig.tla against Valid(c); a spread of accepted "
+                             "vectors encodes a probe corpus (single/multi-thread) whose output TLC decodes (C01/C02 conjuncts). distinct = distinct "
+                             "(rejecting clauses, verdict) classes + probe streams",
+                        samples=summ["samples"][:2], exhaustive=True)
+    res.assumptions = ["Config.tla's Valid is the documented range of every field", "probe inputs are sampled"]
+    return res
+
+
+def check_c19(prop, tier, seed):
+    import shutil
+    res = Result()
+    v07, d19, gstates, gtrans = config_gen(tier, prop)
+    out = os.path.join(vlib.WORK, f"{prop}-{tier}")
+    shutil.rmtree(out, ignore_errors=True)
+    summ = vlib.run_fv(["cfg19", "--vectors", v07, "--docs", d19, "--out", out, "--shards", vlib.JVMS], timeout=3000)
+    verdicts, states, trans, _ = vlib.run_trace_shards("TraceConfig.tla", "TraceConfig.cfg", summ["files"], tagp=prop)
+    if len(verdicts) != summ["docs"] + summ["roundtrips"]:
+        raise ToolError(f"{summ['docs'] + summ['roundtrips']} events but {len(verdicts)} verdicts")
+    ok = collect_simple(verdicts, prop, res, "cfg19", dict(tier=tier, seed=seed))
+    res.coverage = dict(states=gstates + states, transitions=gtrans + trans, traces_validated_against_impl=ok,
+                        evaluations=summ["docs"] + summ["roundtrips"], documents=summ["docs"], roundtrips=summ["roundtrips"],
+                        distinct_nontrivial=summ["docs"] + summ["roundtrips"],
+                        rule="TLC generates TOML documents = two fully non-default base configurations minus every subset of fields "
+                             "(thorough: all 2^17 subsets; quick: empty, singles, pairs, all-but-one, all) with the configuration they must parse to "
+                             "(Parse in Config.tla), and every TOML-representable boundary vector for the serialise/parse round trip; the harness "
+                             "renders/parses with toml 0.5 and TraceConfig.tla compares. Every document / vector is distinct",
+                        samples=summ["samples"][:2], exhaustive=(tier == "thorough"))
+    res.assumptions = ["documents are rendered by the harness in the table layout serde expects; `alpha` is only omitted together with its table"]
+    return res
+
+
 # --------------------------------------------------------------------------- registry
 CHECKS = {}
 for _p in STREAM:
     CHECKS[_p] = check_stream
+CHECKS["C07"] = check_c07
+CHECKS["C19"] = check_c19
 CHECKS["C14"] = check_fill
 CHECKS["C11"] = check_sink
 CHECKS["C12"] = check_faulty
@@ -472,6 +565,10 @@ def replay(prop, path):
         r = check_stream(prop, payload.get("tier", "quick"), payload["seed"], only=payload["case"],
                          outdir=os.path.join(vlib.WORK, f"{prop}-replay"))
         return r
+    if kind == "cfg07":
+        return check_c07(prop, payload.get("tier", "quick"), payload.get("seed", 1))
+    if kind == "cfg19":
+        return check_c19(prop, payload.get("tier", "quick"), payload.get("seed", 1))
     if kind == "faulty":
         r = check_faulty(prop, payload.get("tier", "quick"), payload["seed"])
         return r
